@@ -549,17 +549,28 @@ public:
     RABlock* consecutive = block->consecutive();
     uint32_t shared_assignment_id = Globals::kInvalidId;
 
+    // `_shared_assignments_map` is a union-find forest - a group of blocks that must share their entry assignment is
+    // identified by its root. Groups must be merged root to root, otherwise an earlier merge would be lost when the
+    // same group is merged again (a block that is a target of three or more jump tables).
+    auto find_root = [&](uint32_t id) noexcept -> uint32_t {
+      while (_shared_assignments_map[id] != id) {
+        id = _shared_assignments_map[id];
+      }
+      return id;
+    };
+
     for (RABlock* successor : block->successors()) {
       if (successor == consecutive) {
         continue;
       }
 
       if (successor->has_shared_assignment_id()) {
+        uint32_t root_id = find_root(successor->shared_assignment_id());
         if (shared_assignment_id == Globals::kInvalidId) {
-          shared_assignment_id = successor->shared_assignment_id();
+          shared_assignment_id = root_id;
         }
-        else {
-          _shared_assignments_map[successor->shared_assignment_id()] = shared_assignment_id;
+        else if (root_id != shared_assignment_id) {
+          _shared_assignments_map[root_id] = shared_assignment_id;
         }
       }
       else {
